@@ -85,7 +85,26 @@ fn run_scenario(sc: &Scenario<'_>, rep: &mut Report) {
     let mut signs: Vec<VirtualSign<'static>> = vec![];
     let others: Vec<u16> = ADDRS.iter().copied().filter(|a| *a != sc.addr).collect();
     for b in 0..sc.bystanders {
-        signs.push(VirtualSign::new(Address(others[(b + sc.ty) % others.len()]), if b % 2 == 0 { PageFlipStyle::Manual } else { PageFlipStyle::Automatic }));
+        let baddr = others[(b + sc.ty) % others.len()];
+        let mut by = VirtualSign::new(Address(baddr), if b % 2 == 0 { PageFlipStyle::Manual } else { PageFlipStyle::Automatic });
+        // half of the bystanders were themselves left in the middle of a transfer by earlier traffic (a configuration
+        // request that was never followed up, or a pixel transfer that stopped after its first chunk)
+        match (sc.seed >> (8 + 2 * b)) & 3 {
+            0 => {
+                by.process_message(&from_ref(&RefMsg::Request(baddr, O_RECV_CFG)));
+                rep.count("bystanders_left_mid_transfer");
+            }
+            1 => {
+                for m in vsx::configure_msgs(baddr, &BLOCKS[(sc.ty + 3) % TYPES.len()]) {
+                    by.process_message(&from_ref(&m));
+                }
+                by.process_message(&from_ref(&RefMsg::Request(baddr, O_RECV_PIX)));
+                by.process_message(&from_ref(&RefMsg::Data { offset: 0, data: vec![0x11; 16] }));
+                rep.count("bystanders_left_mid_transfer");
+            }
+            _ => {}
+        }
+        signs.push(by);
     }
     let pos = sc.position.min(signs.len());
     signs.insert(pos, sc.prior.clone());
@@ -345,6 +364,7 @@ pub fn run(ctx: &Ctx) -> Outcome {
     let cells = report.set_len("prior_state_x_type");
     let floors = vec![
         floor("all jobs (11 types x 2 styles x {explored, abandoned} + 11 long lists)", report.get("jobs_done") == 55, report.get("jobs_done")),
+        floor("other signs on the bus left in the middle of a transfer", report.get("bystanders_left_mid_transfer") > 1000, report.get("bystanders_left_mid_transfer")),
         floor("page lists below and above 65536 chunks for every type", report.get("long_page_lists") == 22 && report.maxs.get("most_chunks_in_one_transfer").copied().unwrap_or(0.0) > 65_536.0, report.get("long_page_lists")),
         floor("every exploration reached a fixed point", report.get("explorations_at_fixed_point") == 22, report.get("explorations_at_fixed_point")),
         floor("all 13 protocol states used as prior state", report.set_len("prior_states") == 13, report.set_len("prior_states")),
